@@ -586,12 +586,13 @@ def cases_of(shard, tier):
             if n % 5 == 0 or not quick:
                 yield _mk(0, [('i4', (1,), 'idx'), ('f8', (3,), 1), ('u1', (1,), 2)], n, 'mean', ['GR'], 8, '.0f')
         # many channels (the list of all channel names the writer puts in a comment grows with them), all of them and subsets
-        for nch in (8, 18, 19, 20, 26, 40) + (() if quick else (64, 100)):
-            names = ['DEPT'] + ['C%03d' % i for i in range(1, nch)]
-            for sub in ([], [names[1]], [names[-1], names[nch // 2]], [UNKNOWN]):
+        # 4200: a data row (and the column heading) of more than 65536 characters - a row is one line however long
+        for nch in (8, 18, 19, 20, 26, 40, 4200) + (() if quick else (64, 100)):
+            names = ['DEPT'] + [('C%03d' if nch < 1000 else 'C%04d') % i for i in range(1, nch)]
+            for sub in ([], [names[1]], [names[-1], names[nch // 2]], [UNKNOWN]) if nch < 1000 else (names[1:],):
                 yield {'names': names, 'units': ['m'] + ['u%d' % (i % 7) for i in range(1, nch)], 'longs': ['Depth'] + ['curve %d' % i for i in range(1, nch)],
                        'chs': [['f8', [1], 'idx']] + [['f4', [1], i % 5] for i in range(1, nch)],
-                       'frames': 3, 'method': 'first', 'subset': sub, 'fw': 12, 'fmt': '.3f'}
+                       'frames': 3, 'method': 'first', 'subset': sub, 'fw': 12 if nch < 1000 else 16, 'fmt': '.3f'}
         return
     dt = DTYPES[shard['dt']]
     dims = DIMS[shard['dims']]
